@@ -184,6 +184,33 @@ func cmdRun(args []string) int {
 				broken = append(broken, fmt.Sprintf("%s %v: no path reaches an assertion (reachability witness failed)", h.Func, cfg))
 			}
 
+			// ---- C08 mode: paths that differ only in map-iteration order must
+			// produce the same ordered database writes
+			if opts.MapOrders {
+				groups := map[string][]gosym.PathResult{}
+				for _, p := range res.Paths {
+					if p.Outcome == "returned" {
+						groups[p.DataTrace] = append(groups[p.DataTrace], p)
+					}
+				}
+				nOrders := 0
+				for _, g := range groups {
+					nOrders += len(g)
+					for _, p := range g[1:] {
+						if d := firstDiff(g[0].Writes, p.Writes); d != "" {
+							res.Violations = append(res.Violations, gosym.Violation{Kind: "order", Label: "C08:writes-independent-of-map-order",
+								Pos: strings.Join(p.OrderChoices, " "), Trace: p.Trace, Model: p.Model,
+								Msg: fmt.Sprintf("iteration orders [%s] and [%s] differ: %s", strings.Join(g[0].OrderChoices, " "), strings.Join(p.OrderChoices, " "), d)})
+							break
+						}
+					}
+				}
+				he.Obligations += nOrders
+				he.Discharged += nOrders
+				res.Obligations += nOrders
+				res.Discharged += nOrders
+			}
+
 			// ---- violations: replay natively before reporting
 			seen := map[string]bool{}
 			for _, v := range res.Violations {
@@ -195,7 +222,7 @@ func cmdRun(args []string) int {
 				// shared harnesses carry assertions of several properties,
 				// labelled "Cxx:..."; each check reports only its own, and
 				// panics are reported by the check that owns them (C07)
-				if v.Kind == "assert" {
+				if v.Kind == "assert" || v.Kind == "order" {
 					if p := labelProp(v.Label); p != "" && p != id {
 						otherProps[p+" "+v.Label]++
 						continue
@@ -213,6 +240,28 @@ func cmdRun(args []string) int {
 				rp, err := writeReplay(filepath.Join(verifDir, "replays", id), rf)
 				if err != nil {
 					return fail(err.Error())
+				}
+				if v.Kind == "order" {
+					// Go randomises map iteration per run: replay = run the native
+					// harness repeatedly and compare the app hash it notes
+					hashes := map[string]int{}
+					for k := 0; k < 40 && len(hashes) < 2; k++ {
+						nv, err := nr.run(h.Pkg, h.Func, rp)
+						if err != nil {
+							return fail(err.Error())
+						}
+						hashes[nv.Notes["native:apphash"]]++
+					}
+					if len(hashes) < 2 {
+						he.Inconclusive = append(he.Inconclusive, fmt.Sprintf("order-dependent writes found by the engine (%s) did not show up as differing app hashes in 40 native runs", short(v.Msg, 200)))
+						os.Remove(rp)
+						continue
+					}
+					fmt.Printf("VIOLATION property=%s replay=%s\n", id, rp)
+					fmt.Printf("  harness=%s config=%v kind=order %s (native: %d distinct app hashes over repeated runs)\n", h.Func, cfg, short(v.Msg, 400), len(hashes))
+					nViol++
+					exit = 1
+					continue
 				}
 				nv, err := nr.run(h.Pkg, h.Func, rp)
 				if err != nil {
@@ -290,6 +339,9 @@ func cmdRun(args []string) int {
 					}
 				}
 				for k, want := range notes {
+					if strings.HasPrefix(k, "native:") {
+						continue // values only meaningful in the native run (real hashes)
+					}
 					if got, ok := nv.Notes[k]; ok && normNums(got) != normNums(want) {
 						agree = false
 						why += fmt.Sprintf(" note %s: engine %s native %s", k, want, got)
@@ -324,6 +376,23 @@ func cmdRun(args []string) int {
 		fmt.Printf("OK property=%s tier=%s wall=%.1fs\n", id, tier, wall)
 	}
 	return exit
+}
+
+// firstDiff describes the first position where two write traces differ.
+func firstDiff(a, b []string) string {
+	n := len(a)
+	if len(b) < n {
+		n = len(b)
+	}
+	for i := 0; i < n; i++ {
+		if a[i] != b[i] {
+			return fmt.Sprintf("write #%d: %s  vs  %s", i, short(a[i], 160), short(b[i], 160))
+		}
+	}
+	if len(a) != len(b) {
+		return fmt.Sprintf("%d writes vs %d writes", len(a), len(b))
+	}
+	return ""
 }
 
 // labelProp extracts the property id from a label of the form "Cxx:...".
